@@ -900,7 +900,7 @@ func c20Race(c *lab.Ctx) {
 	rounds := c.Pick(4, 12)
 	sizes := []int{24, 60, 8, 40}
 	if c.Thorough() {
-		sizes = []int{24, 60, 8, 100, 40, 16, 8, 130}
+		sizes = []int{24, 80, 8, 60, 70, 16, 50, 40, 40, 60, 64, 30} // balanced over 4 batches (round % 4)
 	}
 	for round := 0; round < rounds; round++ {
 		if round%c.NBatch != c.Batch {
